@@ -36,7 +36,7 @@ prop(
 
 prop(
     'C15',
-    ['S1', 'S2', 'S3', 'S6', 'S7', 'S8'],
+    ['S1', 'S2', 'S3', 'S6', 'S7', 'S8', 'S9'],
     explanation=(
         'Sibling agreement of the per-class protocol with the slot table derived from attrs field annotations (20 concrete '
         'AST classes, 23 child slots). S2: children() evaluated per enum member / None-ness combination allowed by the '
@@ -48,13 +48,14 @@ prop(
         'HplThisMessage: self-reference; literals: nothing; quantifier defines its variable). S6: no abstract stub is '
         'reachable on a concrete class. S7: iterate() is the explicit-stack (pop from end, extend(reversed(children)), '
         'yield once) or recursive pre-order idiom. S8: aliases()/simple_events() enumerate event1 then event2; '
-        'HplProperty.events() yields all four positions. Not decided: check_some_self_references (own-field check).'
+        'HplProperty.events() yields all four positions. S9: the own-field check searches every reference group without an '
+        'early abort, accepts exactly a direct field of the current message and raises afterwards.'
     ),
 )
 
 prop(
     'C16',
-    ['A1', 'A2', 'M1', 'M2', 'M3', 'M4', 'M5', 'M6'],
+    ['A1', 'A2', 'M1', 'M2', 'M3', 'M4', 'M5', 'M6', 'X6'],
     explanation=(
         'Ownership/effect analysis. A1: all 36 AST / type-token / definition classes are @frozen with generated eq/hash and '
         'define no __eq__/__hash__/__setattr__. A2: metadata is factory=dict, init=False, eq=False and no other AST field is '
@@ -138,13 +139,14 @@ prop(
 
 prop(
     'C05',
-    ['T1w', 'T2w', 'A3p', 'N2', 'N3', 'M6'],
+    ['T1w', 'T2w', 'A3p', 'A3u', 'N2', 'N3', 'F1', 'M6'],
     explanation=(
         'Necessary conditions only: no operator/function parameter type is wider than the reference and no overload was '
         'added (T1w/T2w); every expression-typed child slot has a constraint that is not wider than its parameter type '
         '(A3p); the parser builds through constructors (M6); N2 the same-reference check folds a running intersection '
         'over all occurrences; N3 overload acceptance rejects too few arguments unconditionally, too many unless variadic, '
-        'and tests every argument with can_be. Not decided: value-level behaviour of the inference on every term.'
+        'and tests every argument with can_be; A3u both sides of =/!= are unified and stored back; F1 the parser callbacks build every '
+        'node through its constructor with the operator taken from the lexeme (no folding that bypasses the operand check). Not decided: value-level behaviour of the inference on every term.'
     ),
 )
 
@@ -165,11 +167,13 @@ prop(
 
 prop(
     'C08',
-    ['T3', 'T4', 'D5', 'X3b', 'X1', 'X2', 'T6'],
+    ['T3', 'T4', 'R6', 'D5', 'X3b', 'X1', 'X2', 'T6'],
     explanation=(
         'Only the table-driven parts of the simplifier: T3 commutative/associative flags equal the mathematical ground truth '
         '(used by _pre_simplify_binop to commute/re-associate), T4 INVERSE_OPERATORS is the mirror involution (used to flip '
-        'comparisons), T6 is_* predicates and function-name dispatch strings name the right rows, D5 re-wrapping to the '
+        'comparisons), R6 every node rebuilt by _pre_simplify_binop (113 paths) keeps the operator or its mirror and exactly '
+        'the multiset of operands of the input, re-associating only under the associative and swapping only under the '
+        'commutative flag, T6 is_* predicates and function-name dispatch strings name the right rows, D5 re-wrapping to the '
         'vacuous predicates, X3b the only explicit raise is ZeroDivisionError under a literal-zero divisor test, X1/X2 no '
         'unbound local / index beyond the smallest overload. NOT decided: the ~60 value-dependent rewrite identities.'
     ),
@@ -177,14 +181,15 @@ prop(
 
 prop(
     'C11',
-    ['D2', 'T7', 'M3', 'S8'],
+    ['D2', 'T7', 'M3', 'S8', 'X6'],
     explanation=(
         'D2: canonical_form evaluated per pattern type x scope type (20 cells, dispatch folded with the enum predicate '
         'tables): split field of the pattern is behaviour (absence/requirement/prevention), trigger (response) or none '
         '(existence); split field of the scope is activator (after, after-until) or none; alternatives come from '
         '<field>.simple_events() unfiltered; the result is the scope-major product of property.but(scope=, pattern=) copies; '
         '[property] itself when nothing splits; nothing but the kinds decides. T7 safety/liveness partition. M3 but() carries '
-        'metadata and everything else. S8 simple_events() order.'
+        'metadata and everything else. S8 simple_events() order. X6 no memoisation / shared state (results keyed by == would '
+        'share metadata and identity between distinct properties).'
     ),
 )
 
@@ -258,7 +263,7 @@ prop(
 
 prop(
     'C09',
-    ['R1', 'R4', 'X3b', 'S3'],
+    ['R1', 'R4', 'R4b', 'X3b', 'S3'],
     explanation=(
         'Schema extraction + finite-model check. R1: for every syntactic path of _split_and_not, _split_and_quantifier and '
         '_and_presplit_transform the input shape is read from the guards (is_not/is_or/is_implies/quantifier kind, '
@@ -267,7 +272,8 @@ prop(
         '(atoms that mention the bound variable are unary predicates, the others propositions; an atom that mentions the '
         'variable outside its quantifier is an escape); every divisible shape named by the property has a transforming '
         'branch. R4: the work list skips literal true, raises ValueError exactly for literal false, pushes both operands of '
-        'conjunctions after the transformation and emits everything else once. X3b: documented raises only. S3: the '
+        'conjunctions after the transformation and emits everything else once. R4b: the public entry point delegates '
+        'predicates and expressions to the splitter without shortcuts (a vacuous contradiction must reach the ValueError). X3b: documented raises only. S3: the '
         'contains_reference queries that decide the side conditions cover every slot. Not decided: shapes outside the table '
         '(returned unchanged).'
     ),
